@@ -121,7 +121,8 @@ class StoreDriver(Harness):
     def __init__(self, libpath, workdir, seed, backend, fresh, umask, big, cls="secret"):
         self.cls = cls
         CLS[0] = cls
-        Harness.__init__(self, libpath, workdir, seed, backend, conf_extra="objectstore.umask = %04o" % umask,
+        Harness.__init__(self, libpath, workdir, seed, backend, # (softhsm2.conf(5): "in octal" - written with and without leading zeros in turn)
+                         conf_extra="objectstore.umask = " + (("%04o" if seed % 2 == 0 else "%o") % umask),
                          tokens=("t1",))
         self.libpath = libpath
         self.want_fresh = fresh
